@@ -31,6 +31,8 @@ def code_term(ctx: Ctx, func: Func, env=None, **opts):
 def compare(ctx: Ctx, rule: str, construct: str, func: Func, spec_src: str, *, env=None, spec_env=None,
             source: str = "", select=None, **opts):
     """Obligation: term returned by `func` == spec term (modulo the normal form)."""
+    if ctx.thorough and "inline_depth" not in opts:
+        opts = dict(opts, inline_depth=8)
     try:
         code, _ = code_term(ctx, func, env, **opts)
     except terms.Opaque as e:
